@@ -55,7 +55,8 @@ def check(rep, an, tier):
     cfgs = list(lsq_configs(tier, AXES))
     if tier == "quick":     # the interaction batch × L1 request × bounds is a pairwise boundary of its own
         d = {n: AXES[n][0][0] for n in AXES}
-        cfgs += [dict(d, bs="sym", L1="array"), dict(d, bs="sym", L1="array", lb="any"), dict(d, bs="sym", L1="number", K="mat")]
+        cfgs += [dict(d, bs="sym", L1="array"), dict(d, bs="sym", L1="array", lb="any"), dict(d, bs="sym", L1="number", K="mat"),
+                 dict(d, K="mat", Epsilon="het"), dict(d, K="mat", Epsilon=None)]
     for cfg in cfgs:
         res = run(an, cfg)
         probs = F.final_problems(res)
@@ -137,6 +138,19 @@ def check(rep, an, tier):
                 rep.check("R-FLOW", "reported variance uses the adapted variance model (K)", "K" in v.data, where=res.fn.loc(),
                           construct="K → variance returned by lsq_linear_minimize", entry=entry, config=res.config,
                           msg="the reported variance is computed from the un-propagated variance model")
+        if cfg["K"] == "mat" and cfg["Epsilon"] != "array":
+            # default variance model = element-wise square of the ADAPTED capture matrix (K·A)²; for a matrix K squaring first and
+            # propagating K² afterwards is a different matrix (cross terms of the rows of K are dropped)
+            sq = [e for e in res.events("square") if "A" in e.d["of"].flat().data and R.near(e)]
+            for e in sq:
+                ok = "K" in e.d["of"].flat().data
+                rep.check("R-QTY", "heteroscedastic default squares the adapted capture matrix", ok, where=e.loc, construct=e.text()[:80],
+                          entry=entry, config=res.config,
+                          msg="the capture matrix is squared BEFORE the matrix adaptation K is applied: K²·A² ≠ (K·A)² unless K is diagonal, "
+                              "so the minimised (and reported) variance is not that of the default model")
+            if not sq:
+                rep.undecided("R-QTY", "heteroscedastic default squares the adapted capture matrix", where=res.fn.loc(),
+                              construct="A ** 2 of the adapted A", entry=entry, config=res.config)
         F.qty(rep, res, entry)
         F.count_typed(rep, res, entry)
         F.sign_attrs(rep, res, entry)
